@@ -184,7 +184,14 @@ def m_c07(sc, res):
             wr = written_by_hist(io_, at)
             if at not in wr:
                 continue
-            patterns = wr[at][0][1]["ignore"]
+            # the effective patterns by the rule of C12 (not what the run wrote): the list of the latest earlier
+            # generation in its order, then the new ones without duplicates; order matters for negations
+            hs0 = O.histories(io_["asc_before"])
+            prev = O.parse_manifest_bytes(hs0[at]["gens"][-1][2])["ignore"] if at in hs0 and hs0[at]["gens"] else [".DS_Store", "ascmhl", "ascmhl/"]
+            patterns = list(prev)
+            for x in list(op.get("i", [])) + list(op.get("ii", [])):
+                if x not in patterns:
+                    patterns.append(x)
             vis = O.visible(io_["media_after"], at, patterns)
             fmts = sorted(set(op.get("h") or ["xxh128"]))
             ref = {f: O.ref_dirhashes(vis, f) for f in fmts}
